@@ -65,7 +65,17 @@ func init() {
 		})
 		p.reg("(*"+ps+".Subscription).Cancel", func(ex *Exec, fr *Frame, args []Value) Value {
 			ex.schedule("sub.Cancel")
+			if ex.pubsubStopped {
+				// as the library: once the pubsub instance's context is done, Cancel
+				// returns without doing anything and the subscription is never closed
+				ex.nonNil(fr, args[0])
+				return nil
+			}
 			sub(ex, ex.nonNil(fr, args[0])).cancelled = true
+			return nil
+		})
+		p.reg("verif_PubsubStopped", func(ex *Exec, fr *Frame, args []Value) Value {
+			ex.pubsubStopped = args[0].(*Term).IsConst() && args[0].(*Term).val != 0
 			return nil
 		})
 		p.reg("(*"+ps+".Subscription).Next", func(ex *Exec, fr *Frame, args []Value) Value {
@@ -111,6 +121,8 @@ func init() {
 			var pbCell Value = pbm
 			m := zero(mt).(Struct)
 			m[0] = &pbCell
+			// the last hop that forwarded the message is some other peer than its author
+			ex.setField(m, mt, "ReceivedFrom", "forwarding-neighbour")
 			var cell Value = m
 			s.queue = append(s.queue, &cell)
 			ex.schedule("pubsub.deliver")
